@@ -139,6 +139,11 @@ class BaseIntervalScorer(BaseEstimator):
         self.check_is_fitted()
         cuts = as_2d_array(cuts, vector_as_column=False)
         cuts = self._check_cuts(cuts)
+        n_samples = len(self._X)
+        if cuts.size > 0 and (cuts.min() < 0 or cuts.max() > n_samples):
+            raise ValueError(
+                f"All cuts must be within the range of the data [0, {n_samples}]."
+            )
 
         values = self._evaluate(cuts)
         return values
